@@ -63,3 +63,48 @@ def run(name, root, workdir):
     if name in REG:
         return REG[name](root, workdir)
     raise ValueError(name)
+
+
+def ir2c_selftest(root):
+    """Differential validation of vt/ir2c.py (plain mode) against the gcc build of the same sources; returns (ok, text)."""
+    import subprocess
+    import tempfile
+    import shutil
+    from . import core, ir2c
+    wd = tempfile.mkdtemp(prefix="st-", dir=core.scratch())
+    try:
+        ll = os.path.join(wd, "st.ll")
+        r = subprocess.run(["clang-14", "-O1", "-fno-vectorize", "-fno-slp-vectorize", "-fno-unroll-loops", "-I", os.path.join(root, "include"), "-I", root,
+                            "-S", "-emit-llvm", os.path.join(core.HARNESS, "agents", "selftest_agents.c"), "-o", ll], capture_output=True, text=True)
+        if r.returncode:
+            return False, "clang failed: " + r.stderr[-800:]
+        names = ["ringbuf_init", "ringbuf_get", "ringbuf_empty", "ringbuf_put", "messageq_init", "messageq_claim", "messageq_send", "messageq_receive", "messageq_release"]
+        text = ir2c.translate(open(ll).read(), [(n, "plain", n + "_ir") for n in names])
+        open(os.path.join(wd, "selftest_gen.c"), "w").write(text)
+        exe = os.path.join(wd, "st")
+        r = subprocess.run(["gcc", "-std=gnu11", "-O1", "-w", "-fsanitize=address,undefined", "-fno-sanitize=shift-base", "-I", wd, "-I", os.path.join(root, "include"),
+                            "-o", exe, os.path.join(core.HARNESS, "selftest", "ir2c_diff.c"), os.path.join(root, "librfn/ringbuf.c"), os.path.join(root, "librfn/messageq.c")],
+                           capture_output=True, text=True)
+        if r.returncode:
+            return False, "gcc failed: " + r.stderr[-1500:]
+        r = subprocess.run([exe], capture_output=True, text=True, timeout=300)
+        return r.returncode == 0, (r.stdout + r.stderr)[-600:]
+    finally:
+        shutil.rmtree(wd, ignore_errors=True)
+
+
+def selftest_query(name):
+    """A pseudo-query that runs the translator self-test; a disagreement is reported as an error (inconclusive), never as a violation."""
+    import time
+    from .core import Query, REPO
+
+    def run(q):
+        t0 = time.time()
+        ok, text = ir2c_selftest(REPO)
+        return {"name": q.name, "role": "prove", "harness": "selftest/ir2c_diff.c", "entry": "main", "backend": "native differential run (gcc vs ir2c plain mode)",
+                "status": "pass" if ok else "error", "failed": [], "tolerated": [], "witness_reached": True, "inputs": None,
+                "detail": "" if ok else "vt/ir2c.py disagrees with the gcc build: " + text, "note": text.strip()[:200], "defines": {}, "mutate": [],
+                "wall_s": round(time.time() - t0, 2), "total_s": round(time.time() - t0, 2), "steps": 1000000}
+    q = Query(name, "selftest/ir2c_diff.c", "main", engine="custom", witness=False, note="translator validation: ir2c plain-mode output of ringbuf.c and messageq.c vs the gcc build on 1,000,000 random operations")
+    q.runner = run
+    return q
